@@ -55,6 +55,8 @@ def run(tier, seed):
         if vd['clause']:
             v.failure(dict(case=dict(sampler=name), clause=vd['clause'], manifestation='law_mismatch', detail=vd,
                            features=['population_stage']))
+    if und:
+        raise MachineryError('%d population-stage cells could not be identified (form outside the sample algebra)' % und)
     for clause, man, detail in out['stage2']:
         v.failure(dict(case=dict(stage='measurement'), clause=clause, manifestation=man, detail=detail, features=['measurement_stage']))
     for clause, man, detail in out['stage3']:
